@@ -67,7 +67,8 @@ OPS: Dict[str, Any] = {
                            orphans=st.booleans(), single=st.booleans(), via=st.sampled_from(["model", "model", "rxn"])),
     "readd": _d("readd", k=_k),
     "detached_bounds": _d("detached_bounds", k=_k, b=_bnd),
-    "add_metabolites": _d("add_metabolites", mets=st.lists(_mid_new, min_size=1, max_size=3, unique=True), single=st.booleans()),
+    "add_metabolites": _d("add_metabolites", mets=st.lists(_mid_new, min_size=1, max_size=3, unique=True), single=st.booleans(),
+                          own=st.booleans()),
     "remove_metabolites": _d("remove_metabolites", sels=st.lists(_k, min_size=1, max_size=2), destructive=st.booleans(),
                              via=st.sampled_from(["model", "model", "met"])),
     "add_boundary": _d("add_boundary", met=_k, type=st.sampled_from(["exchange", "demand", "sink", "custom"]),
@@ -104,8 +105,9 @@ OPS: Dict[str, Any] = {
                     members=st.lists(st.tuples(st.sampled_from(["r", "m", "g"]), _k), max_size=3)),
     "remove_group": _d("remove_group", grp=_k, by=st.sampled_from(["obj", "obj", "single"])),
     "group_members": _d("group_members", grp=_k, add=st.booleans(), members=st.lists(st.tuples(st.sampled_from(["r", "m", "g"]), _k), min_size=1, max_size=2)),
-    "from_string": _d("from_string", rxn=_k, lhs=st.lists(st.tuples(st.integers(0, N_MID - 1), st.sampled_from([1, 1, 2, 0.5, 0])), max_size=2, unique_by=lambda t: t[0]),
-                      rhs=st.lists(st.tuples(st.integers(0, N_MID - 1), st.sampled_from([1, 1, 3])), max_size=2, unique_by=lambda t: t[0]),
+    # a metabolite may occur in several terms (twice on one side, on both sides): the equation means its net coefficient
+    "from_string": _d("from_string", rxn=_k, lhs=st.lists(st.tuples(st.integers(0, N_MID - 1), st.sampled_from([1, 1, 2, 0.5, 0])), max_size=3),
+                      rhs=st.lists(st.tuples(st.integers(0, N_MID - 1), st.sampled_from([1, 1, 3, 2])), max_size=3),
                       arrow=st.sampled_from(["-->", "<=>", "<--", "->", "<->"])),
     "inplace_meta": _d("inplace_meta", kind=st.sampled_from(["r", "m", "g", "model", "grp"]), sel=_k, what=st.sampled_from(["notes", "annotation", "name", "compartments", "ann_list", "ann_list"]),
                        key=st.sampled_from(["k1", "k2", "sbo"]), val=st.sampled_from(["v1", "v2", "SBO:0000627"])),
@@ -218,7 +220,10 @@ class World:
         not generated for such models while the finding is listed."""
         if "glpk-exact-copy-vartype" not in self.known or not self.depth():
             return False
-        if getattr(self, "exact_copy", False) and self.model.problem.__name__.endswith("glpk_exact_interface"):
+        # detected on the model itself (it may have been copied or unpickled before the history started: build paths)
+        solver = self.model.solver
+        mixed = any(type(v).__module__ != type(solver).__module__ for v in solver.variables)
+        if (mixed or getattr(self, "exact_copy", False)) and self.model.problem.__name__.endswith("glpk_exact_interface"):
             self._count_excluded("glpk-exact-copy-vartype")
             return True
         return False
@@ -355,8 +360,12 @@ class World:
     def op_add_metabolites(self, op):
         from cobra import Metabolite
 
-        mets = [Metabolite(MID[i], compartment="c") for i in op["mets"]]
-        self.model.add_metabolites(mets[0] if op["single"] else mets)
+        # identifiers the model already has are "ignored" by the call; they come as other objects with the same id or
+        # (own) as the model's own metabolite objects, e.g. model.add_metabolites(reaction.metabolites)
+        m = self.model
+        mets = [(m.metabolites.get_by_id(MID[i]) if op.get("own") and MID[i] in m.metabolites else Metabolite(MID[i], compartment="c"))
+                for i in op["mets"]]
+        m.add_metabolites(mets[0] if op["single"] else mets)
 
     def op_remove_metabolites(self, op):
         m = self.model
@@ -714,8 +723,7 @@ class World:
         def side(terms):
             return " + ".join((f"{c} {MID[i]}" if c != 1 else MID[i]) for i, c in terms)
 
-        rhs = [(i, c) for i, c in op["rhs"] if i not in {j for j, _ in op["lhs"]}]
-        text = f"{side(op['lhs'])} {op['arrow']} {side(rhs)}"
+        text = f"{side(op['lhs'])} {op['arrow']} {side(op['rhs'])}"
         r.build_reaction_from_string(text, verbose=False)
         return "ok"
 
